@@ -200,4 +200,126 @@ theorem alignATG_verbatim (a : Aligner) (orf pre post : Seq)
       simp only [et, List.append_nil, List.reverse_reverse, AtgOutcome.ok.injEq, AtgResult.mk.injEq]
       refine ⟨trivial, ?_, ?_, ?_, ?_, ?_, ?_, trivial, trivial, trivial, trivial⟩ <;> omega
 
+/-! ### any other sequence: no panic, and the score is at most the reference's self-score -/
+
+theorem lastRowBest_le (m : Nat → Nat → Int) (row l2 : Nat) (T : Int) (hT : 0 ≤ T)
+    (h : ∀ j, j < l2 → m row j ≤ T) :
+    (lastRowBest m row l2).score ≤ T ∧ (lastRowBest m row l2).i ≤ row ∧ (lastRowBest m row l2).j + 1 ≤ max l2 1 := by
+  unfold lastRowBest
+  have key : ∀ k, k ≤ l2 →
+      let b := (List.range k).foldl (fun b j => if m row j > b.score then (⟨m row j, row, j⟩ : Best) else b) ⟨0, 0, 0⟩
+      b.score ≤ T ∧ b.i ≤ row ∧ b.j + 1 ≤ max k 1 := by
+    intro k
+    induction k with
+    | zero => intro _; exact ⟨hT, Nat.zero_le _, by simp⟩
+    | succ k ih =>
+      intro hk
+      obtain ⟨i1, i2, i3⟩ := ih (by omega)
+      simp only [List.range_succ, List.foldl_append, List.foldl_cons, List.foldl_nil]
+      generalize (List.range k).foldl (fun b j => if m row j > b.score then (⟨m row j, row, j⟩ : Best) else b) ⟨0, 0, 0⟩ = b at i1 i2 i3
+      have := h k (by omega)
+      split
+      · exact ⟨this, Nat.le_refl _, by show k + 1 ≤ max (k + 1) 1; omega⟩
+      · exact ⟨i1, i2, by omega⟩
+  exact key l2 (Nat.le_refl _)
+
+/-- the un-stopped loop returns (no Go panic) when no cell of row 0 says `UP` and no cell of column 0 `LEFT` -/
+theorem btLoopATG_total (gopen gext : Int) (m : Nat → Nat → Int) (tr : Nat → Nat → Dir)
+    (s1 s2 : Seq) (l1 l2 : Nat) (hup : ∀ j, j < l2 → tr 0 j ≠ Dir.up) (hleft : ∀ i, i < l1 → tr i 0 ≠ Dir.left) :
+    ∀ (f pi pj : Nat) (st : BT), pi ≤ l1 → pj ≤ l2 →
+      (btLoopATG gopen gext m tr s1 s2 f pi pj st).isSome := by
+  intro f
+  induction f with
+  | zero => intro pi pj st _ _; rfl
+  | succ f ih =>
+    intro pi pj st h1 h2
+    simp only [btLoopATG]
+    split
+    · rfl
+    · rename_i hz
+      cases htr : tr (pi - 1) (pj - 1) with
+      | diag =>
+        simp only [btStep, htr]
+        exact ih _ _ _ (by omega) (by omega)
+      | up =>
+        simp only [btStep, htr]
+        by_cases h0 : pi - 1 = 0
+        · exact absurd (h0 ▸ htr) (hup (pj - 1) (by omega))
+        · simp only [h0, if_false]
+          exact ih _ _ _ (by omega) h2
+      | left =>
+        simp only [btStep, htr]
+        by_cases h0 : pj - 1 = 0
+        · exact absurd (h0 ▸ htr) (hleft (pi - 1) (by omega))
+        · simp only [h0, if_false]
+          exact ih _ _ _ h1 (by omega)
+
+/-- **no alignment anchored at the reference's start beats the reference's self-score, and the repaired
+aligner does not panic**: for any sequence `tmp`, under a dominant scheme -/
+theorem alignATG_score_le (a : Aligner) (orf tmp : Seq)
+    (hgap : a.gapopen ≤ a.gapextend ∧ a.gapextend < 0) (hne : orf ≠ [])
+    (hdom : Dom (schemeOf a) orf tmp) :
+    alignATG a true orf tmp = AtgOutcome.err ∨
+    ∃ r, alignATG a true orf tmp = AtgOutcome.ok r ∧ r.score ≤ W (schemeOf a) orf := by
+  have hm : 0 < orf.length := List.length_pos_iff.mpr hne
+  simp only [alignATG]
+  by_cases hte : tmp = []
+  · left; simp [hte]
+  have hn : 0 < tmp.length := List.length_pos_iff.mpr hte
+  rw [if_neg (by simp [hne, hte])]
+  cases hi1 : seqToIndices a orf.reverse with
+  | none => left; rfl
+  | some i1 =>
+    cases hi2 : seqToIndices a tmp.reverse with
+    | none => left; rfl
+    | some i2 =>
+      right
+      simp only []
+      rw [if_neg (by simp [hne, hte])]
+      have hl1 : i1.length = orf.length := by rw [mapM_length _ _ _ hi1]; simp
+      have hl2 : i2.length = tmp.length := by rw [mapM_length _ _ _ hi2]; simp
+      generalize hx1 : orf.reverse.zip i1 = x1
+      generalize hx2 : tmp.reverse.zip i2 = x2
+      have hm1 : x1.map (·.1) = orf.reverse := by rw [← hx1]; exact List.map_fst_zip (by simp; omega)
+      have hm2 : x2.map (·.1) = tmp.reverse := by rw [← hx2]; exact List.map_fst_zip (by simp; omega)
+      have hx1l : x1.length = orf.length := by rw [← hx1]; simp [List.length_zip]; omega
+      have hx2l : x2.length = tmp.length := by rw [← hx2]; simp [List.length_zip]; omega
+      have hsub : ∀ c1 ∈ x1, ∀ c2 ∈ x2, matchScore a c1 c2 = (schemeOf a).sub c1.1 c2.1 := by
+        rw [← hx1, ← hx2]; exact hsub_of_indices a _ _ i1 i2 hi1 hi2
+      have hrow : ∀ j, j < tmp.length → (fill a true x1 x2).m (orf.length - 1) j ≤ W (schemeOf a) orf := by
+        intro j hj
+        rw [fill_m, if_pos ⟨by omega, by omega⟩]
+        have hq1 : (Q x1 (orf.length - 1)).map (·.1) = orf := by
+          rw [Q_map, hm1, Q_reverse _ _ (by omega)]
+          have : orf.length - 1 - (orf.length - 1) = 0 := by omega
+          rw [this, List.drop_zero]
+        have hq2 : (Q x2 j).map (·.1) = tmp.drop (tmp.length - 1 - j) := by
+          rw [Q_map, hm2, Q_reverse _ _ hj]
+        have h1 := cell_val_le (schemeOf a) hgap.1 hgap.2 a rfl rfl (Q x1 (orf.length - 1)) (Q x2 j)
+          (fun c1 h1 c2 h2 => hsub c1 (Q_subset h1) c2 (Q_subset h2))
+          (by rw [hq1, hq2]; exact hdom.mono (fun _ h => h) (fun _ h => List.mem_of_mem_drop h))
+        rw [hq1] at h1
+        exact h1
+      have hW : 0 ≤ W (schemeOf a) orf := W_nonneg _ orf (fun x hx => (hdom x hx).1)
+      obtain ⟨b1, b2, b3⟩ := lastRowBest_le (fill a true x1 x2).m (orf.reverse.length - 1) tmp.reverse.length
+        (W (schemeOf a) orf) hW (by simpa using hrow)
+      simp only [List.length_reverse] at b2 b3
+      have htot := btLoopATG_total a.gapopen a.gapextend (fill a true x1 x2).m (fill a true x1 x2).t
+        orf.reverse tmp.reverse x1.length x2.length
+        (fun j hj => fill_no_up_row0 a _ _ (by omega) j hj)
+        (fun i hi => fill_no_left_col0 a _ _ (by omega) i hi)
+        ((lastRowBest (fill a true x1 x2).m (orf.reverse.length - 1) tmp.reverse.length).i +
+          (lastRowBest (fill a true x1 x2).m (orf.reverse.length - 1) tmp.reverse.length).j + 2)
+        ((lastRowBest (fill a true x1 x2).m (orf.reverse.length - 1) tmp.reverse.length).i + 1)
+        ((lastRowBest (fill a true x1 x2).m (orf.reverse.length - 1) tmp.reverse.length).j + 1) {}
+        (by simp only [List.length_reverse]; omega) (by simp only [List.length_reverse]; omega)
+      cases hloop : btLoopATG a.gapopen a.gapextend (fill a true x1 x2).m (fill a true x1 x2).t
+          orf.reverse tmp.reverse
+          ((lastRowBest (fill a true x1 x2).m (orf.reverse.length - 1) tmp.reverse.length).i +
+            (lastRowBest (fill a true x1 x2).m (orf.reverse.length - 1) tmp.reverse.length).j + 2)
+          ((lastRowBest (fill a true x1 x2).m (orf.reverse.length - 1) tmp.reverse.length).i + 1)
+          ((lastRowBest (fill a true x1 x2).m (orf.reverse.length - 1) tmp.reverse.length).j + 1) {} with
+      | none => rw [hloop] at htot; simp at htot
+      | some v => exact ⟨_, rfl, b1⟩
+
 end Gv.Proofs.PhaseAlign
